@@ -442,7 +442,7 @@ func workerC16(thorough bool, shard, nshards int) {
 	var subs []envSubject
 	over := func() map[reflect.Type]*jsonschema.Schema {
 		mkS := func(m string) *jsonschema.Schema {
-			return &jsonschema.Schema{Type: "object", Title: m, Properties: map[string]*jsonschema.Schema{"zz": {Type: "integer"}, "aa": {Type: "string"}, "mm": {Type: "boolean"}}}
+			return &jsonschema.Schema{Type: "object", Properties: map[string]*jsonschema.Schema{"zz" + m: {Type: "integer"}, "aa" + m: {Type: "string"}, "mm" + m: {Type: "boolean"}}}
 		}
 		return map[reflect.Type]*jsonschema.Schema{reflect.TypeOf(gen.Inner{}): mkS("I"), reflect.TypeOf(gen.Base{}): mkS("B"), reflect.TypeOf(gen.MyInt(0)): mkS("M"), reflect.TypeOf(gen.NamedStruct{}): mkS("N")}
 	}
